@@ -269,3 +269,10 @@ def h7(ctx: Ctx) -> None:
     from .c13 import check_call_sites
 
     check_call_sites(ctx, {"step"})
+
+
+@rule("C14.H8", "mechanism shared with C06: a shock's times count from the start of its session, which is the sum of the lengths of all sessions before it", "T7 (same rule as C06.R3)", floor=4)
+def h8(ctx: Ctx) -> None:
+    from .c06 import r3 as session_span_rule
+
+    session_span_rule(ctx)
